@@ -244,8 +244,12 @@ def generate(seed, tier):
         for _ in range(r.randrange(2, 5)):
             merges.append({"attrs": {r.choice(KEYS + ("service.name", "x")): r.choice((1, "s", True, 2.5, ["a"])) for _ in range(r.randrange(0, 4))},
                            "schema": r.choice(("", "", "http://a", "http://b"))})
+        # attributes handed to Resource.create in code: some of them for the built-in keys, some with values the
+        # attribute model does not admit (index into CREATE_VALUES)
+        create = [[r.choice(CREATE_KEYS), r.randrange(len(CREATE_VALUES))] for _ in range(r.randrange(0, 4))]
         return {"arm": "seq", "cap": r.choice((None, 0, 1, 3, 5)), "max_value_len": r.choice((None, None, 4, 0)),
-                "freeze_at": r.choice((None, None, r.randrange(0, 10))), "ops": ops, "merges": merges, "knobs": knobs}
+                "freeze_at": r.choice((None, None, r.randrange(0, 10))), "ops": ops, "merges": merges, "create": create,
+                "knobs": knobs}
     provs = []
     for i in range(r.randrange(0, 4)):
         provs.append({"name": "Res%d" % i, "order": r.choice((0, 0, 1, -1, 5)),
@@ -354,6 +358,12 @@ def _lin(s, ch):
     return common.result(k, viol, key=key)
 
 
+CREATE_KEYS = ("telemetry.sdk.name", "telemetry.sdk.version", "telemetry.sdk.language", "service.name", "custom.k", "team")
+#: (value, admitted by the attribute model?)
+CREATE_VALUES = (("mine", True), (7, True), (True, True), (2.5, True), (["a", "b"], True),
+                 (None, False), ({"a": 1}, False), ([1, "a"], False), (object, False))
+
+
 def _seq(s, ch):
     viol = []
     info = {"interesting": False}
@@ -411,6 +421,29 @@ def _seq(s, ch):
     for r_, (a0, s0) in zip(rs, snap):
         if dict(r_.attributes) != a0 or r_.schema_url != s0:
             viol.append(V("merge-modified-operand", "%r -> %r" % (a0, dict(r_.attributes))))
+    # ---- Resource.create with attributes given in code: a value that is not admitted is rejected, it does not take the
+    # value of an earlier source (the SDK identity, the service name) with it
+    if s.get("create"):
+        base = dict(Resource.create().attributes)
+        given = {}
+        for key_, vi in s["create"]:
+            given[key_] = CREATE_VALUES[vi]
+        try:
+            made = dict(Resource.create({k_: v_[0] for k_, v_ in given.items()}).attributes)
+        except BaseException as e:  # noqa
+            made = None
+            viol.append(V("resource-create-raised:%s" % type(e).__name__, repr(given)))
+        if made is not None:
+            for key_ in ("telemetry.sdk.name", "telemetry.sdk.version", "telemetry.sdk.language", "service.name"):
+                if key_ not in made:
+                    viol.append(V("resource-key-missing:sdk-or-service", "Resource.create(%r) lacks %s" % (
+                        {k_: v_[0] for k_, v_ in given.items()}, key_)))
+            for key_, (val, ok) in given.items():
+                want_v = (tuple(val) if isinstance(val, list) else val) if ok else base.get(key_)
+                if made.get(key_) != want_v and key_ in made or (want_v is not None and key_ not in made and key_ not in (
+                        "telemetry.sdk.name", "telemetry.sdk.version", "telemetry.sdk.language", "service.name")):
+                    viol.append(V("resource-create-precedence", "key %s given %r (%s): resource has %r, expected %r" % (
+                        key_, val, "valid" if ok else "not admitted", made.get(key_), want_v)))
     try:
         rs[0].attributes["new"] = 1
         viol.append(V("resource-attributes-mutable", ""))
